@@ -232,17 +232,16 @@ def applicable(case, ref) -> list[str]:
         schema = tool["inputs"][name]
         kind = composite_kind(schema)
         t = schema["type"]
+        b = schema.get("inputBinding", {})
         if kind == "array" and (t == "boolean[]" or (isinstance(t, dict) and t.get("items") == "boolean" and "inputBinding" not in t)) \
-                and "itemSeparator" not in schema.get("inputBinding", {}):
+                and "itemSeparator" not in b:
             m.append("boolarr")
-        elif kind == "array" and isinstance(t, dict) and t.get("items") == "boolean" and "inputBinding" in t \
-                and "prefix" in schema.get("inputBinding", {}) and "itemSeparator" not in schema["inputBinding"] \
-                and not any(job[name]):
+        if kind == "array" and isinstance(t, dict) and t.get("items") == "boolean" and "inputBinding" in t \
+                and "prefix" in b and "itemSeparator" not in b and not any(job[name]):
             m.append("boolprefix")
-        elif kind == "array" and isinstance(t, dict) and "inputBinding" in t and "itemSeparator" in schema.get("inputBinding", {}) \
-                and isinstance(t.get("items"), str):
+        if kind == "array" and isinstance(t, dict) and "inputBinding" in t and "itemSeparator" in b and isinstance(t.get("items"), str):
             m.append("itemsep")
-        elif kind in ("array", "record"):
+        if kind in ("array", "record"):
             m.append("composite")
     elif "ShellCommandRequirement" not in tool["requirements"] and composite_candidates(tool, job) & set(ref.get("argv") or []):
         m.append("composite")
@@ -372,10 +371,12 @@ def shrink(sh: Shard, run: Runner, case, ref, sf, max_runs, deadline):
     cur, cur_ref, cur_sf = case, ref, sf
     runs = 0
     progress = True
-    while progress and runs < max_runs and time.time() < deadline:
+    cut_short = False
+    while progress:
         progress = False
         for what, cand in G.shrink_candidates(cur):
             if runs >= max_runs or time.time() >= deadline:
+                cut_short = True
                 break
             r2, s2, _ = run.both(cand)
             runs += 1
@@ -387,7 +388,9 @@ def shrink(sh: Shard, run: Runner, case, ref, sf, max_runs, deadline):
                 cur, cur_ref, cur_sf = cand, r2, s2
                 progress = True
                 break
-    exhausted = not progress  # a full pass over the candidates found nothing left to remove
+        if cut_short:
+            break
+    exhausted = not cut_short  # a full pass over the candidates found nothing left to remove
     return cur, cur_ref, cur_sf, (runs, exhausted)
 
 
